@@ -1216,7 +1216,7 @@ func c11Evolve(r *Run, steps int) (*family, []*genetics.Genome) {
 		if rng.Float64() < 0.25 && len(f.members) > 1 {
 			g2 := f.pick(rng)
 			fit := []float64{0, 1, 1, 2.5}
-			op := opSpec{Kind: "mate", Method: rng.Intn(3), NewId: 100 + s, F1: fit[rng.Intn(4)], F2: fit[rng.Intn(4)]}
+			op := opSpec{Kind: "mate", Method: rng.Intn(3), NewId: 100 + s, F1: JF(fit[rng.Intn(4)]), F2: JF(fit[rng.Intn(4)])}
 			out = o.apply(op, g, g2, f.env, f.opts, false)
 		} else {
 			k, x := 0, rng.Intn(total)
